@@ -345,7 +345,7 @@ func (e *Exec) step(fn *ssa.Function, fc *FuncContract, st *State, ins ssa.Instr
 		for _, r := range x.Results {
 			rs = append(rs, e.val(st, r))
 		}
-		e.atReturn(st, x)
+		e.atReturn(st, x, rs)
 		return false, []Exit{{kind: exitReturn, st: st, results: rs}}
 
 	case *ssa.Panic:
@@ -1235,7 +1235,7 @@ func (e *Exec) closureRequires(st *State, x *ssa.MakeClosure, f *ssa.Function, b
 // atReturn: `at_return: expr` clauses are obligations at every return instruction of the function
 // under verification, over its parameters and the local variables visible there (what a
 // postcondition cannot mention, e.g. the index a lookup settled on).
-func (e *Exec) atReturn(st *State, x *ssa.Return) {
+func (e *Exec) atReturn(st *State, x *ssa.Return, rs []Val) {
 	if e.fc == nil || e.curFn != e.fn || len(e.fc.Lists["at_return"]) == 0 {
 		return
 	}
@@ -1248,6 +1248,7 @@ func (e *Exec) atReturn(st *State, x *ssa.Return) {
 			}
 		}
 		c.where = fmt.Sprintf("%s:%d", cl.File, cl.Line)
+		c.results = rs // result / result0.. are the values being returned here
 		t, err := c.evalBool(strings.TrimSpace(cl.Expr))
 		if err != nil {
 			// the clause talks about a variable that does not exist (or has another type: the
